@@ -212,11 +212,22 @@ fn parse_project(v: &Value) -> Option<Project> {
 }
 
 fn build_site_reader(req: &Value, reader: DynReader) -> Result<site::Reader, String> {
-    site::reader::Builder::default()
-        .set_samples(parse_map(&req["map"]))
-        .set_project(parse_project(&req["project"]))
-        .build(reader)
-        .map_err(|e| e.to_string())
+    // "setters": the order in which the builder's options are given ("samples-first" default, "project-first",
+    // "samples-twice": set, then set again with the same value) - a builder's result must not depend on it
+    let builder = match req["setters"].as_str().unwrap_or("samples-first") {
+        "project-first" => site::reader::Builder::default()
+            .set_project(parse_project(&req["project"]))
+            .set_samples(parse_map(&req["map"])),
+        "samples-twice" => site::reader::Builder::default()
+            .set_samples(parse_map(&req["map"]))
+            .set_project(parse_project(&req["project"]))
+            .set_samples(parse_map(&req["map"]))
+            .set_project(parse_project(&req["project"])),
+        _ => site::reader::Builder::default()
+            .set_samples(parse_map(&req["map"]))
+            .set_project(parse_project(&req["project"])),
+    };
+    builder.build(reader).map_err(|e| e.to_string())
 }
 
 /// Reads one site and records everything observable about it.
@@ -322,7 +333,8 @@ fn op_site_hist(req: &Value) -> Value {
                         break;
                     }
                     events.push(ev);
-                    if is_err {
+                    // "after_error": "continue" keeps reading behind a record that failed (a library caller may skip it)
+                    if is_err && req["after_error"].as_str() != Some("continue") {
                         break;
                     }
                 }
@@ -796,6 +808,107 @@ fn op_array(req: &Value) -> Value {
         out.insert("get".into(), Value::Array(res));
     }
 
+    // get_mut() with the same queries (on a copy).
+    if let Some(queries) = req["get"].as_array() {
+        let mut copy = array.clone();
+        let res: Vec<Value> = queries
+            .iter()
+            .map(|q| {
+                let idx = usizes(q);
+                g(guarded(panic::AssertUnwindSafe(|| opt_f(copy.get_mut(&idx).map(|x| &*x)))))
+            })
+            .collect();
+        out.insert("get_mut".into(), Value::Array(res));
+    }
+
+    // The same array reached through other construction / copy histories: every one must answer like the original.
+    if req["histories"].as_bool().unwrap_or(false) {
+        let queries: Vec<Vec<usize>> = req["get"]
+            .as_array()
+            .map(|a| a.iter().map(usizes).collect())
+            .unwrap_or_default();
+        let probe = |a: &Array<f64>| -> Value {
+            let gets: Vec<Value> = queries
+                .iter()
+                .map(|idx| g(guarded(|| opt_f(a.get(idx)))))
+                .collect();
+            let last = d - 1;
+            let sum_last = guarded(|| {
+                let s = a.sum(Axis(last));
+                json!({"shape": s.shape().0.clone(),
+                       "data": s.as_slice().iter().map(|x| *x as i64).collect::<Vec<_>>()})
+            });
+            let view0 = guarded(|| {
+                a.get_axis(Axis(0), shape[0] - 1)
+                    .map(|v| json!(v.iter().map(|x| *x as i64).collect::<Vec<_>>()))
+                    .unwrap_or(Value::Null)
+            });
+            json!({"shape": a.shape().0.clone(),
+                   "data": a.as_slice().iter().map(|x| *x as i64).collect::<Vec<_>>(),
+                   "get": gets, "sum_last": g(sum_last), "view0_last": g(view0)})
+        };
+        let values: Vec<f64> = array.as_slice().to_vec();
+        let mut hist = serde_json::Map::new();
+        hist.insert("original".into(), probe(&array));
+        hist.insert("clone".into(), g(guarded(|| probe(&array.clone()))));
+        // clone_from into targets of another shape / size
+        let mut other_shape: Vec<usize> = shape.iter().rev().copied().collect();
+        other_shape.push(2);
+        for (name, target_shape) in [
+            ("clone_from_other_shape", other_shape),
+            ("clone_from_one_axis", vec![n + 1]),
+            ("clone_from_same_shape", shape.clone()),
+        ] {
+            hist.insert(
+                name.into(),
+                g(guarded(|| {
+                    let mut target = Array::from_zeros(Shape(target_shape.clone()));
+                    target.clone_from(&array);
+                    probe(&target)
+                })),
+            );
+        }
+        hist.insert(
+            "from_iter".into(),
+            g(guarded(|| match Array::from_iter(values.iter().copied(), Shape(shape.clone())) {
+                Ok(a) => probe(&a),
+                Err(e) => json!({"err": e.to_string()}),
+            })),
+        );
+        hist.insert(
+            "new_unchecked".into(),
+            g(guarded(|| probe(&Array::new_unchecked(values.clone(), Shape(shape.clone()))))),
+        );
+        hist.insert(
+            "from_zeros_then_fill".into(),
+            g(guarded(|| {
+                let mut a = Array::from_zeros(Shape(shape.clone()));
+                a.as_mut_slice().copy_from_slice(&values);
+                probe(&a)
+            })),
+        );
+        hist.insert(
+            "from_element_then_iter_mut".into(),
+            g(guarded(|| {
+                let mut a = Array::from_element(0.0, Shape(shape.clone()));
+                a.iter_mut().zip(values.iter()).for_each(|(x, v)| *x = *v);
+                probe(&a)
+            })),
+        );
+        hist.insert(
+            "index_mut_fill".into(),
+            g(guarded(|| {
+                let mut a = Array::from_zeros(Shape(shape.clone()));
+                let indices: Vec<Vec<usize>> = a.iter_indices().collect();
+                for (idx, v) in indices.iter().zip(values.iter()) {
+                    a[idx.as_slice()] = *v;
+                }
+                probe(&a)
+            })),
+        );
+        out.insert("histories".into(), Value::Object(hist));
+    }
+
     // get_axis / view iteration over a grid of axes and positions incl. out-of-range ones.
     let mut axes: Vec<usize> = (0..d + 2).collect();
     axes.push(usize::MAX);
@@ -905,6 +1018,49 @@ fn op_array(req: &Value) -> Value {
     Value::Object(out)
 }
 
+/// Concurrent library use: `jobs` (ordinary requests) are dealt round-robin to `threads` threads that start together behind a
+/// barrier; replies come back in job order. Whatever the library shares between callers (caches, tables, statics) is then
+/// exercised by several first uses at once - results must equal those of the same jobs run one after the other.
+fn op_mt(req: &Value) -> Value {
+    let jobs: Vec<Value> = req["jobs"].as_array().expect("jobs").clone();
+    let threads = (req["threads"].as_u64().unwrap_or(4) as usize).max(1);
+    let barrier = Arc::new(std::sync::Barrier::new(threads));
+    let jobs = Arc::new(jobs);
+    let mut handles = Vec::new();
+    for t in 0..threads {
+        let jobs = Arc::clone(&jobs);
+        let barrier = Arc::clone(&barrier);
+        // named like the main thread so that the panic hook files a panic under this thread's own LAST_PANIC slot
+        let builder = std::thread::Builder::new().name("main".into());
+        handles.push(builder.spawn(move || {
+            barrier.wait();
+            let mut mine = Vec::new();
+            let mut i = t;
+            while i < jobs.len() {
+                let r = match guarded(|| dispatch(&jobs[i])) {
+                    Ok(v) => v,
+                    Err(p) => json!({"panic": p}),
+                };
+                mine.push((i, r));
+                i += threads;
+            }
+            mine
+        }).expect("spawn"));
+    }
+    let mut replies = vec![Value::Null; jobs.len()];
+    for h in handles {
+        match h.join() {
+            Ok(mine) => {
+                for (i, r) in mine {
+                    replies[i] = r;
+                }
+            }
+            Err(_) => return json!({"panic": "a worker thread of op mt died"}),
+        }
+    }
+    json!({"replies": replies, "threads": threads})
+}
+
 fn dispatch(req: &Value) -> Value {
     match req["op"].as_str().expect("op") {
         "site_hist" => op_site_hist(req),
@@ -914,6 +1070,7 @@ fn dispatch(req: &Value) -> Value {
         "read_file" => op_read_file(req),
         "hyper" => op_hyper(req),
         "array" => op_array(req),
+        "mt" => op_mt(req),
         "ping" => json!({"pong": true, "overflow_checks": cfg!(debug_assertions) || overflow_checks_on()}),
         other => panic!("unknown op {other}"),
     }
